@@ -206,7 +206,8 @@ def link(funcs, addr, entry="main", order=None):
     code = []
     glabels = {}
     pend = []
-    names = [f["name"] for f in funcs if f.get("lines") is not None]
+    # bodies of inline functions are templates (their `JMP .endof` is only defined once expanded): not emitted
+    names = [f["name"] for f in funcs if f.get("lines") is not None and not f.get("inline")]
     order = order or ([entry] + [n for n in names if n != entry])
     byname = {f["name"]: f for f in funcs}
     for fn in order:
